@@ -166,7 +166,7 @@ Definition ex18_spec (skip : bool) : screen_spec :=
   {| sc_setup := []; sc_refresh := []; sc_show := [SIfCount 2 [SRedrawSig] []]; sc_closed := [];
      sc_input := [([49%N], ([], RRedraw))];
      sc_input_default := ([], None); sc_prompt_none := false; sc_input_required := true;
-     sc_no_separator := false; sc_skip_check := skip; sc_pages := 0; sc_answer0 := AnsNoAttr; sc_custom := [] |}.
+     sc_no_separator := false; sc_skip_check := skip; sc_pages := 0; sc_answer0 := AnsNoAttr; sc_custom := []; sc_setup_cmds := [] |}.
 Definition ex18_typed : list (option str) := [Some [49%N]; Some [50%N]; None].
 Definition ex18_acts : list saction := [SACmds [SSchedule 0 0]; SARun].
 Definition ex18_run (skip : bool) :=
